@@ -96,13 +96,19 @@ func (r *rwRT) ruleOracles() {
 		mkCallStmt := func(x func(st *State) AV) func(st *State) AV {
 			return func(st *State) AV { _, n := r.heapNode(st, "ExprStmt", map[string]AV{"X": x(st)}); return n }
 		}
-		call := func(st *State) AV { _, n := r.heapNode(st, "CallExpr", map[string]AV{"Fun": exprLeaf(r, "f")}); return n }
+		call := func(st *State) AV {
+			_, n := r.heapNode(st, "CallExpr", map[string]AV{"Fun": exprLeaf(r, "f")})
+			return n
+		}
 		paren := func(st *State) AV { _, n := r.heapNode(st, "ParenExpr", map[string]AV{"X": call(st)}); return n }
 		cases := []tc{
 			{"statement that is a call of the callee", mkCallStmt(call), target, true},
 			{"statement that is a call of another function", mkCallStmt(call), Sym{Name: "obj:other", NN: true, Uniq: true}, false},
 			{"parenthesised call statement", mkCallStmt(paren), target, false},
-			{"go statement", func(st *State) AV { _, n := r.heapNode(st, "GoStmt", map[string]AV{"Call": unwrap(call(st))}); return n }, target, false},
+			{"go statement", func(st *State) AV {
+				_, n := r.heapNode(st, "GoStmt", map[string]AV{"Call": unwrap(call(st))})
+				return n
+			}, target, false},
 			{"assignment", func(st *State) AV { _, n := r.heapNode(st, "AssignStmt", map[string]AV{}); return n }, target, false},
 		}
 		for _, t := range cases {
@@ -230,45 +236,59 @@ func (r *rwRT) ruleOracles() {
 			return st, true
 		}
 		mark0 := len(d.base.Events)
-		// yield directly in a declared function
-		if st, ok := run([]step{{"pre", F}, {"pre", call}, {"post", call}, {"post", F}}, yieldObj); !ok {
-			err = fmt.Errorf("traversal over func F() { Yield() } does not complete")
-		} else if m := marked(st, mark0); len(m) != 1 || m[0] != "F" {
-			err = fmt.Errorf("func F() { Yield() } marks %v, expected exactly F", m)
-		}
-		// yield inside a literal nested in a declared function: only the literal
-		if st, ok := run([]step{{"pre", F}, {"pre", L}, {"pre", call}, {"post", call}, {"post", L}, {"post", F}}, fromObj); !ok {
-			if err == nil {
-				err = fmt.Errorf("traversal over a nested literal does not complete")
+		// every scenario for literals with and without a result list (a callback such as
+		// func(v int) { Yield(v) } has none: it is still a function of its own)
+		for _, litResults := range []AV{Sym{Name: "results", NN: true}, Nil{}} {
+			for _, lit := range []string{"L", "D"} {
+				d.in.Fields[lit+".Type"] = Sym{Name: lit + ".Type", NN: true}
+				d.in.Fields[lit+".Type.Results"] = litResults
 			}
-		} else if m := marked(st, mark0); (len(m) != 1 || m[0] != "L") && err == nil {
-			err = fmt.Errorf("func F() { g := func() { YieldFrom() } } marks %v, expected exactly the literal (the enclosing ordinary function must stay untouched)", m)
-		}
-		// yield after the literal closed: the outer function
-		if st, ok := run([]step{{"pre", F}, {"pre", L}, {"post", L}, {"pre", call}, {"post", call}, {"post", F}}, yieldObj); ok {
-			if m := marked(st, mark0); (len(m) != 1 || m[0] != "F") && err == nil {
-				err = fmt.Errorf("func F() { g := func() {}; Yield() } marks %v, expected exactly F", m)
+			if _, isNil := litResults.(Nil); isNil && err != nil {
+				break
 			}
-		}
-		// yield in F after a closure that itself contains a literal: still F
-		D := r.node("FuncLit", "D")
-		if st, ok := run([]step{{"pre", F}, {"pre", L}, {"pre", D}, {"post", D}, {"post", L}, {"pre", call}, {"post", call}, {"post", F}}, yieldObj); ok {
-			if m := marked(st, mark0); (len(m) != 1 || m[0] != "F") && err == nil {
-				err = fmt.Errorf("func F() { c := func() { d := func() {} }; Yield() } marks %v, expected exactly F (the enclosing-function bookkeeping does not return to F after leaving nested literals)", m)
+			// yield directly in a declared function
+			if st, ok := run([]step{{"pre", F}, {"pre", call}, {"post", call}, {"post", F}}, yieldObj); !ok {
+				err = fmt.Errorf("traversal over func F() { Yield() } does not complete")
+			} else if m := marked(st, mark0); len(m) != 1 || m[0] != "F" {
+				err = fmt.Errorf("func F() { Yield() } marks %v, expected exactly F", m)
 			}
-		} else if err == nil {
-			err = fmt.Errorf("traversal over doubly nested literals does not complete")
-		}
-		// yield in the middle literal after its inner literal closed: the middle literal
-		if st, ok := run([]step{{"pre", F}, {"pre", L}, {"pre", D}, {"post", D}, {"pre", call}, {"post", call}, {"post", L}, {"post", F}}, yieldObj); ok {
-			if m := marked(st, mark0); (len(m) != 1 || m[0] != "L") && err == nil {
-				err = fmt.Errorf("a yield in a literal after its inner literal closed marks %v, expected exactly that literal", m)
+			// yield inside a literal nested in a declared function: only the literal
+			if st, ok := run([]step{{"pre", F}, {"pre", L}, {"pre", call}, {"post", call}, {"post", L}, {"post", F}}, fromObj); !ok {
+				if err == nil {
+					err = fmt.Errorf("traversal over a nested literal does not complete")
+				}
+			} else if m := marked(st, mark0); (len(m) != 1 || m[0] != "L") && err == nil {
+				err = fmt.Errorf("func F() { g := func() { YieldFrom() } } marks %v, expected exactly the literal (the enclosing ordinary function must stay untouched)", m)
 			}
-		}
-		// a call of something else marks nothing
-		if st, ok := run([]step{{"pre", F}, {"pre", call}, {"post", call}, {"post", F}}, Sym{Name: "obj:other", NN: true, Uniq: true}); ok {
-			if m := marked(st, mark0); len(m) != 0 && err == nil {
-				err = fmt.Errorf("a call of another function marks %v", m)
+			// yield after the literal closed: the outer function
+			if st, ok := run([]step{{"pre", F}, {"pre", L}, {"post", L}, {"pre", call}, {"post", call}, {"post", F}}, yieldObj); ok {
+				if m := marked(st, mark0); (len(m) != 1 || m[0] != "F") && err == nil {
+					err = fmt.Errorf("func F() { g := func() {}; Yield() } marks %v, expected exactly F", m)
+				}
+			}
+			// yield in F after a closure that itself contains a literal: still F
+			D := r.node("FuncLit", "D")
+			if st, ok := run([]step{{"pre", F}, {"pre", L}, {"pre", D}, {"post", D}, {"post", L}, {"pre", call}, {"post", call}, {"post", F}}, yieldObj); ok {
+				if m := marked(st, mark0); (len(m) != 1 || m[0] != "F") && err == nil {
+					err = fmt.Errorf("func F() { c := func() { d := func() {} }; Yield() } marks %v, expected exactly F (the enclosing-function bookkeeping does not return to F after leaving nested literals)", m)
+				}
+			} else if err == nil {
+				err = fmt.Errorf("traversal over doubly nested literals does not complete")
+			}
+			// yield in the middle literal after its inner literal closed: the middle literal
+			if st, ok := run([]step{{"pre", F}, {"pre", L}, {"pre", D}, {"post", D}, {"pre", call}, {"post", call}, {"post", L}, {"post", F}}, yieldObj); ok {
+				if m := marked(st, mark0); (len(m) != 1 || m[0] != "L") && err == nil {
+					err = fmt.Errorf("a yield in a literal after its inner literal closed marks %v, expected exactly that literal", m)
+				}
+			}
+			// a call of something else marks nothing
+			if st, ok := run([]step{{"pre", F}, {"pre", call}, {"post", call}, {"post", F}}, Sym{Name: "obj:other", NN: true, Uniq: true}); ok {
+				if m := marked(st, mark0); len(m) != 0 && err == nil {
+					err = fmt.Errorf("a call of another function marks %v", m)
+				}
+			}
+			if _, isNil := litResults.(Nil); isNil && err != nil {
+				err = fmt.Errorf("for function literals without a result list: %v", err)
 			}
 		}
 		r.account(d.in)
